@@ -1,10 +1,10 @@
 META = {
- 'manifest': {'text': 'Bounded symbolic model checking of one update(key, value) of the real update_tuple_sketch<uint32> with a non-commutative policy from table states of concrete occupancy (symbolic keys, summaries, theta, seed, hash): the retained key set follows the Theta rule, the updated key gets policy(previous summary, value) (create() for a new key), every other key keeps its summary through insert / resize / rebuild moves. Tuple set operations on two compact operands built from parts (symbolic hashes, thetas, summaries; <= 2 entries each): A-not-B, intersection and a unit-level union select keys exactly as the Theta definition and carry the summaries the policy prescribes (3 * first + second in presentation order; A-not-B keeps the summary of A).',
+ 'manifest': {'text': 'Bounded symbolic model checking of one update(key, value) of the real update_tuple_sketch<uint32> with a non-commutative policy from table states of concrete occupancy (symbolic keys, summaries, theta, seed, hash): the retained key set follows the Theta rule, the updated key gets policy(previous summary, value) (create() for a new key), every other key keeps its summary through insert / resize / rebuild moves. Tuple set operations on two compact operands built from parts (symbolic hashes, thetas, summaries; <= 2 entries each): A-not-B, intersection and a unit-level union select keys exactly as the Theta definition and carry the summaries the policy prescribes (3 * first + second in presentation order; A-not-B keeps the summary of A); the intersection also over a summary type with real move semantics (a moved-from summary is visibly clobbered).',
               'note': 'hash = arbitrary function; tables of 2..8 slots via the private constructor; compact() / filter() of update sketches (no verdict), unions of more than 1 + 1 entries, array-of-doubles and user types with move semantics are outside the claim'},
  'functions_encoded': ['update_tuple_sketch::update(uint64_t, U) / update(const void*, size_t, U), begin/end', 'tuple_a_not_b::compute -> theta_set_difference_base<pair>::compute', 'tuple_intersection::update/get_result -> theta_intersection_base<pair>', 'tuple_union::update/get_result -> theta_union_base<pair> (unit-level table)', 'compact_tuple_sketch 5-arg constructor + iterators', 'theta_update_sketch_base<pair<uint64,uint32>, pair_extract_key>::find/insert/resize/rebuild/consolidate_non_empty', 'std::nth_element over pairs', ],
  'bounds': 'lg_nom 1..2 (tables 2, 4, 8 slots), every occupancy mask for <= 4 slots and sampled masks for 8, one symbolic step; set operations: 1-2 entries per operand, union 1 + 1 on a 4-slot unit-level table',
  'stubs': ['MurmurHash3_x64_128 -> harness model (update-step queries)', 'std::vector<pair<uint64,uint32>>::_M_realloc_insert -> fixed-capacity model (set-operation queries)', 'resize()/rebuild()/vector growth/nth_element in intersection and union set-operation queries -> assert-unreachable cuts discharged by the solver'], 'assumes': ['every pre-state key is found by the table lookup in its slot'],
- 'outside': ['compact() / filter()', 'set operations with more than 2 entries per operand, update-sketch operands, ordered results', 'array_tuple_sketch', 'summary types with real move semantics', 'string keys'],
+ 'outside': ['compact() / filter()', 'set operations with more than 2 entries per operand, update-sketch operands, ordered results', 'array_tuple_sketch', 'summary types with real move semantics outside the intersection queries', 'string keys'],
 }
 def queries(tier):
     import itertools
@@ -34,4 +34,11 @@ def queries(tier):
         qs.append(Q(f'tuple_setop_op{op}_a{na}{"o" if ao else "u"}_b{nb}{"o" if bo else "u"}_r{ro}', 'tuple_setops', 'c13_setop.c', defs={'OP': op, 'NA': na, 'NB': nb, 'AORD': ao, 'BORD': bo, 'RORD': ro, 'ULG': (2 if na + nb <= 2 else 3)},
                     unwind=max(na + nb, 2) + 2, unwindset={'^(verif_new_.*|harness|make|idx|verif_mem(set|cpy|move).*)$': 20, 'update|find|realloc_insert': 10, 'introsort_loop': 2},
                     timeout=(400 if tier == 'quick' else 1500), native_vectors=300, c_defs=cd, mem_gb=(10 if tier == 'quick' else 28)))
+    # the same set operations over a summary type with REAL move semantics (a moved-from summary is visibly clobbered): intersection
+    for (op, na, nb, ao, bo, ro) in [(1, 1, 1, 1, 1, 0)] + ([(1, 2, 2, 1, 1, 0)] if tier == 'thorough' else []):   # a-not-b over this type: result vector growth (not a pair of scalars, not modelled): no verdict in 300 s
+        cd = {'VERIF_NEW_CAPN': 16, 'VERIF_VEC_CAP': 8}
+        if op == 1: cd.update({'VERIF_CUT_THETA_RESIZE': None, 'VERIF_CUT_THETA_REBUILD': None, 'VERIF_CUT_VECTOR_REALLOC': None, 'VERIF_NEW_CAPN': 8})
+        qs.append(Q(f'tuple_setop_mv_op{op}_a{na}{"o" if ao else "u"}_b{nb}{"o" if bo else "u"}_r{ro}', 'tuple_setops', 'c13_setop.c', defs={'OP': op, 'NA': na, 'NB': nb, 'AORD': ao, 'BORD': bo, 'RORD': ro, 'ULG': 2},
+                    tu_defs={'SUMMARY_MOVE': None}, unwind=max(na + nb, 2) + 2, unwindset={'^(verif_new_.*|harness|make|idx|verif_mem(set|cpy|move).*)$': 20, 'update|find|realloc_insert': 10, 'introsort_loop': 2},
+                    timeout=(600 if tier == 'quick' else 1500), native_vectors=300, c_defs=cd, mem_gb=(10 if tier == 'quick' else 28)))
     return qs
